@@ -28,6 +28,8 @@ type Scenario struct {
 	RejectFirst bool
 	// Ctx: "" = context.Background | cancel = a cancellable context (what cmd/gensign passes) | timeout = a 60 s deadline
 	Ctx string
+	// Window: the validity window the CA stamps (see vh.CABehaviour.Window)
+	Window string
 }
 
 type Fault struct {
@@ -79,12 +81,12 @@ func runOnce(s Scenario, f Fault) (res runResult, infra error) {
 		return res, err
 	}
 	defer conn.Close()
-	ca := &vh.FakeCA{Default: vh.CABehaviour{NCerts: s.NCerts}}
+	ca := &vh.FakeCA{Default: vh.CABehaviour{NCerts: s.NCerts, Window: s.Window}}
 	var marks []int
 	ca.OnCall = func(n int) { marks = append(marks, p.NumFrames()) }
 	if f.Where == "ca" {
 		for i := 0; i < f.Index; i++ {
-			ca.Script = append(ca.Script, vh.CABehaviour{NCerts: s.NCerts})
+			ca.Script = append(ca.Script, vh.CABehaviour{NCerts: s.NCerts, Window: s.Window})
 		}
 		b := vh.CABehaviour{Err: "verif: CA failure"}
 		if f.Kind == "panic" {
@@ -93,7 +95,7 @@ func runOnce(s Scenario, f Fault) (res runResult, infra error) {
 		if f.Kind == "error+certs" {
 			b.ErrWithCerts, b.NCerts = true, s.NCerts
 		}
-		ca.Script = append(ca.Script, b, vh.CABehaviour{NCerts: s.NCerts})
+		ca.Script = append(ca.Script, b, vh.CABehaviour{NCerts: s.NCerts, Window: s.Window})
 	}
 	hlog := &vh.HandlerLog{}
 	var h gensign.Handler
@@ -297,13 +299,14 @@ func exec(s Scenario) (vh.Outcome, error) {
 	return out, nil
 }
 
-const rule = "scenarios: the real regular handler, or a harness handler producing 1..3 agent keys x 1..3 requests through the repository's AgentKey, CA returning 1..3 certificates per request, 0..2 stale labelled certificates in the agent, optionally a rejecting handler in front, run under context.Background, a cancellable context (what cmd/gensign passes) or a deadline context (each case is journaled first: a fault that kills the process instead of coming back as an error is reported with its scenario). Per scenario a fault-free run fixes the number of agent operations n and CA calls m; then EVERY (operation index 0..n-1) x {failure reply, connection closed}, every CA call x {error, panic, error handed back together with certificates} and a panic in each of Name / Authenticate / Generate / CSRs / AddCertsToAgent is executed in a fresh world (exhaustive per scenario; scenarios random). Oracle: challenge fault => AllAuthFailed; agent fault before the first CA call => a typed generation error; CA error => SignerSignErr and no further CA call; list / remove / add-certificate fault => AgentOpCertErr; any panic => Panic; always a *gensign.Error, the process survives; fault-free: nil, CA calls = all requests in order, every returned certificate in the agent; always: certificates added are a subset of those the CA returned. Non-trivial: at least one injected fault was reached and judged."
+const rule = "scenarios: the real regular handler, or a harness handler producing 1..3 agent keys x 1..3 requests through the repository's AgentKey, CA returning 1..3 certificates per request (validity window as requested / without expiry / until 2^63 s / stamped by a clock 90 s ahead), 0..2 stale labelled certificates in the agent, optionally a rejecting handler in front, run under context.Background, a cancellable context (what cmd/gensign passes) or a deadline context (each case is journaled first: a fault that kills the process instead of coming back as an error is reported with its scenario). Per scenario a fault-free run fixes the number of agent operations n and CA calls m; then EVERY (operation index 0..n-1) x {failure reply, connection closed}, every CA call x {error, panic, error handed back together with certificates} and a panic in each of Name / Authenticate / Generate / CSRs / AddCertsToAgent is executed in a fresh world (exhaustive per scenario; scenarios random). Oracle: challenge fault => AllAuthFailed; agent fault before the first CA call => a typed generation error; CA error => SignerSignErr and no further CA call; list / remove / add-certificate fault => AgentOpCertErr; any panic => Panic; always a *gensign.Error, the process survives; fault-free: nil, CA calls = all requests in order, every returned certificate in the agent; always: certificates added are a subset of those the CA returned. Non-trivial: at least one injected fault was reached and judged."
 
 func TestC04Faults(t *testing.T) {
 	vh.Run(t, vh.Spec[Scenario]{Property: "C04", Name: "TestC04Faults", Rule: rule, Journal: true,
 		Gen: func(t *rapid.T) Scenario {
 			s := Scenario{Real: rapid.Bool().Draw(t, "real"), NCerts: rapid.IntRange(1, 3).Draw(t, "ncerts"), Stale: rapid.IntRange(0, 2).Draw(t, "stale"), RejectFirst: rapid.Bool().Draw(t, "rejectFirst"),
-				Ctx: rapid.SampledFrom([]string{"", "cancel", "cancel", "timeout"}).Draw(t, "ctx")}
+				Ctx:    rapid.SampledFrom([]string{"", "cancel", "cancel", "timeout"}).Draw(t, "ctx"),
+				Window: rapid.SampledFrom([]string{"", "", "forever", "ahead", "huge"}).Draw(t, "window")}
 			if !s.Real {
 				s.NKeys = rapid.IntRange(1, 3).Draw(t, "nkeys")
 				s.NReqs = rapid.IntRange(1, 3).Draw(t, "nreqs")
